@@ -15,6 +15,9 @@ def run(ctx):
         {"scens": wcat.history_scenarios(), "policies": ("FIFO", "LIFO"), "bound": 1 if q else 2, "demote": True, "cap": 40000},
         {"scens": wcat.wait_scenarios(), "policies": ("FIFO", "LIFO", "JOBS"), "bound": 1 if q else 2, "demote": True, "cap": 40000},
         {"scens": wcat.carry_scenarios(), "policies": ("FIFO", "JOBS"), "bound": 1},
+        {"scens": wcat.first_handle_scenarios(), "policies": ("FIFO", "LIFO", "JOBS"), "bound": 1},
+        {"scens": wcat.rerun_scenarios(), "policies": ("FIFO", "LIFO", "JOBS"), "bound": 1},
+        {"scens": wcat.token_again_scenarios(), "policies": ("FIFO", "JOBS"), "bound": 1, "demote": True},
         {"scens": wcat.latejoin_scenarios(failing=True), "policies": ("FIFO", "FIFO+rev"), "bound": 1},
         {"scens": wcat.dag_scenarios(3, rotations=(0,), with_failures=True, all_orders=False), "policies": ("FIFO",), "bound": 1 if not q else 0},
         {"scens": wcat.dag_scenarios(3 if q else 4, rotations=(0, 4), all_orders=False, min_n=2), "policies": ("FIFO", "JOBS"), "bound": 1, "cap": 3000},
